@@ -34,6 +34,12 @@ class Ctx:
         return self.rng.random() < self.p.get(key, default)
 
     def declare(self, type_, value, raw, origin=None):
+        # reuse an existing plain variable holding the same value (aliasing: one variable, several uses)
+        if origin is None and self.chance("var_reuse", 0.45):
+            same = [n for (t, n, o) in self.decls if t == type_ and o is None and self.values.get(n) == value]
+            if same:
+                self.features.add("var-reused")
+                return "$" + self.rng.choice(same)
         name = self.fresh(type_[:3])
         self.decls.append((type_, name, origin))
         if origin is None:
@@ -57,6 +63,11 @@ def render_value(v):
 def pick_amount(ctx, around=None):
     r = ctx.rng
     x = r.random()
+    if around is None and ctx.balances and r.random() < ctx.p.get("exact_balance", 0.3):
+        # exactly (or one off) what some account holds: boundary of every comparison with a balance
+        b = r.choice(list(ctx.balances.values()))
+        if b > 0:
+            return b + r.choice([0, 0, 0, -1, 1])
     if around is not None and x < 0.3:
         return max(0, around + r.choice([-1, 0, 0, 1]))
     if x < 0.40:
@@ -290,6 +301,9 @@ def gen_statement(ctx):
         if r.random() < 0.3:
             return "save [%s *] from %s" % (gen_asset_text(ctx, asset), at), ('save', asset, None, name)
         n = pick_amount(ctx)
+        b = ctx.balances.get((name, asset), 0)
+        if b > 0 and r.random() < 0.45:
+            n = b + r.choice([0, 0, -1, 1])
         if ctx.chance("negative_amount", 0.02):
             n = -r.randrange(1, 10)
         return "save %s from %s" % (gen_monetary(ctx, asset, n), at), ('save', asset, n, name)
@@ -340,7 +354,6 @@ def gen_case(seed, index, profile=None):
     rng = random.Random("%s/%s" % (seed, index))
     ctx = Ctx(rng, p)
     nst = rng.randrange(1, p["stmts_max"] + 1)
-    stmts = [gen_statement(ctx) for _ in range(nst)]
 
     # balances: small pool, steered towards interesting relations
     for a in ACCOUNTS + ["x"]:
@@ -358,6 +371,8 @@ def gen_case(seed, index, profile=None):
             else:
                 v = rng.choice([rng.randrange(1, 30), rng.randrange(20, 300)])
             ctx.balances[(a, c)] = v
+
+    stmts = [gen_statement(ctx) for _ in range(nst)]
 
     # optional balance()/overdraft()/meta() origins (C10 stream)
     origin_lines = []
